@@ -124,6 +124,16 @@ func (fc *FnCtx) call(instr ssa.Instruction, c *ssa.CallCommon, st *State, g *sm
 
 	var res Val
 	cs := fc.P.Contract[name]
+	// A contract variant "name[T]" applies where an interface argument is, statically,
+	// a value of concrete type T (the call converts it with MakeInterface).
+	for _, a := range c.Args {
+		if mi, ok := a.(*ssa.MakeInterface); ok {
+			if v := fc.P.Contract[name+"["+fc.P.TypeStr(mi.X.Type(), nil)+"]"]; v != nil {
+				cs = v
+				break
+			}
+		}
+	}
 	fc.callGuard[fmt.Sprintf("%s#%d", name, ord)] = g
 	switch {
 	case fc.special(name, c, args, resT, st, g, where, &res):
